@@ -24,7 +24,14 @@ def run_driver(unit, prop, repo, scratch, tier, driver, args_quick, args_thoroug
     lock = os.path.join(repo, 'Cargo.lock')
     if os.path.exists(lock):
         shutil.copy(lock, os.path.join(d, 'Cargo.lock'))
-    env = dict(os.environ, CARGO_NET_OFFLINE='true', CARGO_TARGET_DIR=os.path.join(d, 'target'))
+    # build output: per run in the scratch directory; for the tree under /repo itself a
+    # persistent directory under /verif/.cache is reused (cargo rebuilds whatever changed in
+    # the working tree; the directory is not needed for correctness and may be deleted)
+    tdir = os.path.join(d, 'target')
+    if os.path.abspath(repo) == '/repo' and os.environ.get('VERIF_NO_CACHE') != '1':
+        tdir = os.path.join(VERIF, '.cache', 'target-' + driver)
+        os.makedirs(tdir, exist_ok=True)
+    env = dict(os.environ, CARGO_NET_OFFLINE='true', CARGO_TARGET_DIR=tdir)
     b = subprocess.run(['cargo', 'build', '--release', '--offline'], cwd=d, env=env, capture_output=True, text=True)
     if b.returncode != 0:
         # a lock file that does not fit the driver: retry without it
@@ -35,7 +42,7 @@ def run_driver(unit, prop, repo, scratch, tier, driver, args_quick, args_thoroug
         r['status'] = 'undecided'
         r['undecided'].append('driver %s does not build against this tree: %s' % (driver, b.stderr[-800:]))
         return r
-    exe = os.path.join(d, 'target', 'release', driver + '_driver')
+    exe = os.path.join(tdir, 'release', driver + '_driver')
     args = args_thorough if tier == 'thorough' else args_quick
     cmd = [exe] + [str(a) for a in args]
     try:
